@@ -62,6 +62,8 @@ type Term struct {
 	k    uint64
 	name string
 	id   uint32
+	lo   uint64 // unsigned value range (bit-vectors): lo <= value <= hi
+	hi   uint64
 }
 
 type termKey struct {
@@ -78,6 +80,8 @@ type Ctx struct {
 	True   *Term
 	False  *Term
 	fresh  int
+	varRange map[string][2]uint64
+	linCache map[uint32]*linForm
 }
 
 func NewCtx() *Ctx {
@@ -101,8 +105,143 @@ func (c *Ctx) mk(op Op, w int, a, b, cc *Term, k uint64, name string) *Term {
 	}
 	c.nextID++
 	t := &Term{op: op, w: w, a: a, b: b, c: cc, k: k, name: name, id: c.nextID}
+	if w > 0 {
+		t.lo, t.hi = c.rangeOf(t)
+	}
 	c.tab[key] = t
 	return t
+}
+
+func bitsFor(v uint64) uint64 { // smallest 2^n-1 >= v
+	if v == 0 {
+		return 0
+	}
+	return (uint64(1)<<uint(bits.Len64(v)) - 1) | v
+}
+
+// rangeOf computes a sound unsigned interval for a freshly built bit-vector term.
+func (c *Ctx) rangeOf(t *Term) (uint64, uint64) {
+	m := mask(t.w)
+	full := func() (uint64, uint64) { return 0, m }
+	switch t.op {
+	case OpConst:
+		return t.k, t.k
+	case OpVar:
+		if r, ok := c.varRange[t.name]; ok {
+			return r[0], r[1]
+		}
+		return full()
+	case OpApp:
+		return 0, 255
+	case OpZExt:
+		return t.a.lo, t.a.hi
+	case OpIte:
+		lo, hi := t.b.lo, t.b.hi
+		if t.c.lo < lo {
+			lo = t.c.lo
+		}
+		if t.c.hi > hi {
+			hi = t.c.hi
+		}
+		return lo, hi
+	case OpAdd:
+		a, b := t.a, t.b
+		// b negative constant: a - k'
+		if b.IsConst() && t.w == 64 && b.k>>63 == 1 {
+			k := -b.k
+			if a.lo >= k {
+				return a.lo - k, a.hi - k
+			}
+			return full()
+		}
+		hs := a.hi + b.hi
+		if hs < a.hi || hs > m {
+			return full()
+		}
+		return a.lo + b.lo, hs
+	case OpSub:
+		a, b := t.a, t.b
+		if a.lo >= b.hi {
+			return a.lo - b.hi, a.hi - b.lo
+		}
+		return full()
+	case OpMul:
+		a, b := t.a, t.b
+		if a.hi != 0 && b.hi > m/a.hi {
+			return full()
+		}
+		return a.lo * b.lo, a.hi * b.hi
+	case OpUDiv:
+		if t.b.lo > 0 {
+			return t.a.lo / t.b.hi, t.a.hi / t.b.lo
+		}
+		return full()
+	case OpURem:
+		if t.b.lo > 0 {
+			hi := t.b.hi - 1
+			if t.a.hi < hi {
+				hi = t.a.hi
+			}
+			return 0, hi
+		}
+		return full()
+	case OpBAnd:
+		hi := t.a.hi
+		if t.b.hi < hi {
+			hi = t.b.hi
+		}
+		return 0, hi
+	case OpBOr, OpBXor:
+		h := t.a.hi
+		if t.b.hi > h {
+			h = t.b.hi
+		}
+		lo := uint64(0)
+		if t.op == OpBOr {
+			lo = t.a.lo
+			if t.b.lo > lo {
+				lo = t.b.lo
+			}
+		}
+		return lo, bitsFor(h) & m
+	case OpLShr:
+		if t.b.IsConst() && t.b.k < 64 {
+			return t.a.lo >> t.b.k, t.a.hi >> t.b.k
+		}
+		return 0, t.a.hi
+	case OpShl:
+		if t.b.IsConst() && t.b.k < uint64(t.w) {
+			if t.a.hi <= m>>t.b.k {
+				return t.a.lo << t.b.k, t.a.hi << t.b.k
+			}
+		}
+		return full()
+	case OpExtract:
+		lo := int(t.k & 0xff)
+		if lo == 0 && t.a.hi <= m {
+			return t.a.lo, t.a.hi
+		}
+		if t.a.hi>>uint(lo) <= m && t.a.hi>>uint(lo) == t.a.lo>>uint(lo) {
+			v := t.a.hi >> uint(lo)
+			return v, v
+		}
+		if t.a.hi>>uint(lo) <= m {
+			return 0, t.a.hi >> uint(lo)
+		}
+		return full()
+	case OpConcat:
+		return t.a.lo<<uint(t.b.w) | t.b.lo&0, (t.a.hi<<uint(t.b.w) | mask(t.b.w)) & m
+	}
+	return full()
+}
+
+// VarR creates a variable with a known unsigned range (the caller must also assume it).
+func (c *Ctx) VarR(w int, name string, lo, hi uint64) *Term {
+	if c.varRange == nil {
+		c.varRange = map[string][2]uint64{}
+	}
+	c.varRange[name] = [2]uint64{lo, hi}
+	return c.Var(w, name)
 }
 
 func mask(w int) uint64 {
@@ -205,6 +344,14 @@ func (c *Ctx) Eq(a, b *Term) *Term {
 	if a.IsConst() && b.IsConst() {
 		return c.Bool(a.k == b.k)
 	}
+	if a.w > 0 && (a.hi < b.lo || b.hi < a.lo) {
+		return c.False
+	}
+	if a.w == 64 && !a.IsConst() && !b.IsConst() {
+		if lo, hi, ok := c.diffInterval(a, b); ok && (lo > 0 || hi < 0) {
+			return c.False
+		}
+	}
 	if a.w == 0 {
 		if a.IsTrue() {
 			return b
@@ -246,6 +393,10 @@ func (c *Ctx) Eq(a, b *Term) *Term {
 	}
 	if a.IsConst() && b.op == OpIte {
 		return c.Eq(b, a)
+	}
+	// parallel ite chains with the same condition: compare branch-wise
+	if a.op == OpIte && b.op == OpIte && a.a == b.a {
+		return c.Ite(a.a, c.Eq(a.b, b.b), c.Eq(a.c, b.c))
 	}
 	if a.id > b.id {
 		a, b = b, a
@@ -378,6 +529,51 @@ func (c *Ctx) Bin(op Op, a, b *Term) *Term {
 			return c.Bool(sx <= sy)
 		}
 	}
+	if (op == OpSDiv || op == OpSRem) && a.hi <= mask(w)>>1 && b.hi <= mask(w)>>1 {
+		if op == OpSDiv {
+			return c.Bin(OpUDiv, a, b)
+		}
+		return c.Bin(OpURem, a, b)
+	}
+	if (op == OpUDiv || op == OpURem) && b.IsConst() && b.k != 0 && b.k&(b.k-1) == 0 {
+		sh := bits.TrailingZeros64(b.k)
+		if op == OpUDiv {
+			return c.Bin(OpLShr, a, c.Const(w, uint64(sh)))
+		}
+		if sh == 0 {
+			return c.Const(w, 0)
+		}
+		return c.ZExt(c.Extract(a, sh-1, 0), w)
+	}
+	if op == OpAShr && a.hi <= mask(w)>>1 {
+		return c.Bin(OpLShr, a, b)
+	}
+	if w == 64 && (op == OpAdd || op == OpSub) {
+		sgn := int64(1)
+		if op == OpSub {
+			sgn = -1
+		}
+		return c.fromLin(linAdd(c.linOf(a), c.linOf(b), sgn))
+	}
+	if w == 64 && (op == OpUlt || op == OpUle) && !(a.IsConst() || b.IsConst()) {
+		if lo, hi, ok := c.diffInterval(a, b); ok { // b - a
+			if op == OpUlt {
+				if lo > 0 {
+					return c.True
+				}
+				if hi <= 0 {
+					return c.False
+				}
+			} else {
+				if lo >= 0 {
+					return c.True
+				}
+				if hi < 0 {
+					return c.False
+				}
+			}
+		}
+	}
 	switch op {
 	case OpAdd:
 		if a.IsConst() && !b.IsConst() {
@@ -464,6 +660,14 @@ func (c *Ctx) Bin(op Op, a, b *Term) *Term {
 		if b.IsConst() && b.k == 0 {
 			return a
 		}
+		if op == OpBOr {
+			if r := c.orPieces(a, b); r != nil {
+				return r
+			}
+			if r := c.orPieces(b, a); r != nil {
+				return r
+			}
+		}
 		if a == b {
 			if op == OpBOr {
 				return a
@@ -481,6 +685,12 @@ func (c *Ctx) Bin(op Op, a, b *Term) *Term {
 		if a == b {
 			return c.False
 		}
+		if a.hi < b.lo {
+			return c.True
+		}
+		if a.lo >= b.hi {
+			return c.False
+		}
 		if b.IsConst() && b.k == 0 {
 			return c.False
 		}
@@ -493,6 +703,12 @@ func (c *Ctx) Bin(op Op, a, b *Term) *Term {
 	case OpUle:
 		if a == b {
 			return c.True
+		}
+		if a.hi <= b.lo {
+			return c.True
+		}
+		if a.lo > b.hi {
+			return c.False
 		}
 		if a.IsConst() && a.k == 0 {
 			return c.True
@@ -507,9 +723,15 @@ func (c *Ctx) Bin(op Op, a, b *Term) *Term {
 		if a == b {
 			return c.False
 		}
+		if sm := mask(w) >> 1; a.hi <= sm && b.hi <= sm {
+			return c.Bin(OpUlt, a, b)
+		}
 	case OpSle:
 		if a == b {
 			return c.True
+		}
+		if sm := mask(w) >> 1; a.hi <= sm && b.hi <= sm {
+			return c.Bin(OpUle, a, b)
 		}
 	}
 	rw := w
@@ -517,6 +739,25 @@ func (c *Ctx) Bin(op Op, a, b *Term) *Term {
 		rw = 0
 	}
 	return c.mk(op, rw, a, b, nil, 0, "")
+}
+
+// orPieces recognises  zext(lo) | (zext(hi) << k)  with k = width(lo)  as zext(concat(hi, lo)).
+func (c *Ctx) orPieces(lo, hi *Term) *Term {
+	if hi.op != OpShl || !hi.b.IsConst() {
+		return nil
+	}
+	k := int(hi.b.k)
+	lp, hp := lo, hi.a
+	if lp.op == OpZExt {
+		lp = lp.a
+	}
+	if hp.op == OpZExt {
+		hp = hp.a
+	}
+	if lp.w != k || hp.w+k > lo.w {
+		return nil
+	}
+	return c.ZExt(c.Concat(hp, lp), lo.w)
 }
 
 func (c *Ctx) BNot(a *Term) *Term {
@@ -556,6 +797,30 @@ func (c *Ctx) Extract(a *Term, hi, lo int) *Term {
 		}
 		return c.SExt(a.a, w)
 	}
+	if (a.op == OpLShr || a.op == OpAShr) && a.b.IsConst() && int(a.b.k)+hi < a.w {
+		return c.Extract(a.a, hi+int(a.b.k), lo+int(a.b.k))
+	}
+	if a.op == OpExtract {
+		ilo := int(a.k & 0xff)
+		return c.Extract(a.a, hi+ilo, lo+ilo)
+	}
+	if a.op == OpConcat {
+		if hi < a.b.w {
+			return c.Extract(a.b, hi, lo)
+		}
+		if lo >= a.b.w {
+			return c.Extract(a.a, hi-a.b.w, lo-a.b.w)
+		}
+	}
+	if (a.op == OpZExt) && hi < a.a.w {
+		return c.Extract(a.a, hi, lo)
+	}
+	if a.op == OpZExt && lo >= a.a.w {
+		return c.Const(w, 0)
+	}
+	if lo > 0 && a.hi>>uint(lo) == 0 {
+		return c.Const(w, 0)
+	}
 	return c.mk(OpExtract, w, a, nil, nil, uint64(hi)<<8|uint64(lo), "")
 }
 
@@ -571,6 +836,9 @@ func (c *Ctx) ZExt(a *Term, w int) *Term {
 	}
 	if a.op == OpZExt {
 		return c.ZExt(a.a, w)
+	}
+	if a.op == OpExtract && a.k&0xff == 0 && a.a.w == w && a.a.hi <= mask(a.w) {
+		return a.a
 	}
 	return c.mk(OpZExt, w, a, nil, nil, 0, "")
 }
@@ -597,6 +865,9 @@ func (c *Ctx) Concat(hi, lo *Term) *Term {
 	}
 	if hi.IsConst() && hi.k == 0 {
 		return c.ZExt(lo, hi.w+lo.w)
+	}
+	if hi.op == OpExtract && lo.op == OpExtract && hi.a == lo.a && int(hi.k&0xff) == int(lo.k>>8)+1 {
+		return c.Extract(hi.a, int(hi.k>>8), int(lo.k&0xff))
 	}
 	return c.mk(OpConcat, hi.w+lo.w, hi, lo, nil, 0, "")
 }
@@ -754,3 +1025,16 @@ func PrintTerm(t *Term) string {
 func (t *Term) String() string { return PrintTerm(t) }
 
 var _ = bits.Len
+
+// RangeConstraint states a variable's declared range to the solver (built without the
+// range-based folding, which would otherwise reduce it to true).
+func (c *Ctx) RangeConstraint(t *Term) *Term {
+	r := c.True
+	if t.lo > 0 {
+		r = c.And(r, c.mk(OpUle, 0, c.Const(t.w, t.lo), t, nil, 0, ""))
+	}
+	if t.hi < mask(t.w) {
+		r = c.And(r, c.mk(OpUle, 0, t, c.Const(t.w, t.hi), nil, 0, ""))
+	}
+	return r
+}
